@@ -924,7 +924,7 @@ func TestC46(t *testing.T) {
 	c46ArmorTamper(m)
 	ks, err := newKeyset()
 	if err != nil {
-		m.Inconclusive("gpg witness / key setup unavailable: " + err.Error())
+		reportSetupError(m, err)
 		return
 	}
 	defer ks.close()
